@@ -75,6 +75,9 @@ def configs(ctx):
     C['deep-line-A-C-B'] = {'chains': [A, Cc, B], 'dials': [(0, 1), (1, 2)], 'small': False}
     if not ctx.quick:
         C['deep-triangle'] = {'chains': [A, B, Cc], 'dials': [(0, 1), (1, 2), (2, 0)], 'small': False}
+    # a hub that is behind both of its neighbours (it can be fetching from both at once)
+    C['hub-at-genesis-between-3-and-5'] = {'chains': [chain(3), chain(0), chain(5)], 'dials': [(1, 0), (1, 2)], 'small': False}
+    C['hub-at-genesis-dialled'] = {'chains': [chain(3), chain(0), chain(5)], 'dials': [(0, 1), (2, 1)], 'small': False}
     # a node with a longer chain joins AFTER the others have converged among themselves (start from a non-initial
     # state: connections that have already carried a complete download, with whatever bookkeeping that left behind)
     C['late-joiner-deep-fork'] = {'chains': [A, B, Cc], 'dials': [(1, 2)], 'late_dials': [(0, 1)], 'small': False}
@@ -136,6 +139,7 @@ class Sim:
         self.choice_alts = []       # pending alternatives for random.choice inside the current tick
         self.choice_pick = 0
         self.dropped = []
+        self.held = set()          # sockets whose pending deliveries are postponed (a slow link) until nothing else is deliverable
         net.rnd.chooser = self._choose
 
     def _wrap(self, i, node):
@@ -180,6 +184,12 @@ class Sim:
 
     def enabled(self):
         ev = [('deliver', i, sock.fd) for i, sock, ln in self.pipes()]
+        # one deviation can also postpone a whole connection direction (its frames stay in order)
+        pp = self.pipes()
+        for i, sock, ln in pp:
+            # (postponing only matters when the same node has frames pending on another connection as well)
+            if sock.fd not in self.held and sum(1 for j, s2, _ in pp if j == i) > 1:
+                ev.append(('hold', i, sock.fd))
         for i, n in enumerate(self.nodes):
             if n.lsock is not None and n.lsock.backlog:
                 ev.append(('accept', i))
@@ -192,7 +202,11 @@ class Sim:
     def default_event(self):
         p = self.pipes()
         if p:
-            return ('deliver', p[0][0], p[0][1].fd)
+            free = [x for x in p if x[1].fd not in self.held]
+            if not free:
+                self.held.clear()      # nothing else to deliver: the slow link catches up
+                free = p
+            return ('deliver', free[0][0], free[0][1].fd)
         for i, n in enumerate(self.nodes):
             if n.lsock is not None and n.lsock.backlog:
                 return ('accept', i)
@@ -218,6 +232,8 @@ class Sim:
             else:
                 n.read_event(sock)
             self.in_handler = False
+        elif kind == 'hold':
+            self.held.add(ev[2])
         elif kind == 'accept':
             self.nodes[ev[1]].accept()
         elif kind == 'tick':
@@ -525,8 +541,15 @@ def _dev_worker(arg):
     return n, out[:20]
 
 
-def deviation_search(ctx, name, cfg, bound, window):
-    """all schedules with <= bound deviations inside the first `window` steps"""
+def env_only(ev):
+    """deviations that model the environment rather than a mere reordering of two enabled handlers: another fetch-peer
+    choice, a slow link, a long pause"""
+    return (ev[0] == 'tick' and ev[2] == 1) or ev[0] == 'hold' or ev == ('advance', 61)
+
+
+def deviation_search(ctx, name, cfg, bound, window, reduced_from=99):
+    """all schedules with <= bound deviations inside the first `window` steps; from `reduced_from` deviations on, every
+    deviation of the schedule is drawn from the reduced alphabet env_only"""
     setup_worker()
     bad0, points, sim = run_schedule(cfg, {}, deviation_window=window, want_points=True, phases=False)
     sets = [()]
@@ -543,6 +566,8 @@ def deviation_search(ctx, name, cfg, bound, window):
                 if step <= last:
                     continue
                 for a in alts:
+                    if b + 1 >= reduced_from and not (env_only(a) and all(env_only(x[1]) for x in base)):
+                        continue
                     nxt.append(base + ((step, a),))
         sets += nxt
         level = nxt
@@ -587,6 +612,8 @@ def exhaustive_dfs(cfg, max_ticks, max_adv, max_states):
                 continue
             if ev[0] == 'tick' and ev[2] == 1:
                 continue        # two nodes: never more than one fetch candidate
+            if ev[0] == 'hold':
+                continue        # the exhaustive search already takes deliveries in every order
             succ.append(ev)
         stats['transitions'] += len(succ)
         if not [e for e in succ if e[0] in ('deliver', 'accept')]:
@@ -626,16 +653,19 @@ def run(ctx):
     nsched = {}
     for name, cfg in sorted(C.items()):
         bound = 1 if ctx.quick else 2
-        window = 40 if ctx.quick else 30
-        if not ctx.quick and name.startswith(('ahead-by-1:A', 'fork-depth-2-longer:A', 'triangle-long-at-0')):
+        window = 32 if ctx.quick else 30
+        if not ctx.quick and name.startswith(('ahead-by-1:A', 'fork-depth-2-longer:A')):
             bound = 3
             window = 12
-        if ctx.quick and name in ('triangle-long-at-0',):
-            bound = 2
-            window = 18
+        reduced_from = 99
+        if name.startswith(('hub-at-genesis-between', 'triangle-long-at-0')):
+            # two (three) deviations, the second (third) level restricted to environment deviations
+            bound = 2 if ctx.quick else 3
+            window = 26 if ctx.quick else 30
+            reduced_from = 2 if ctx.quick else 3
         if ctx.quick and name.startswith(('deep-', 'late-', 'line-C-not', 'fork-depth-1')):
             window = 14          # long chains: each execution is several times more expensive
-        sets = deviation_search(ctx, name, cfg, bound, window)
+        sets = deviation_search(ctx, name, cfg, bound, window, reduced_from)
         nsched[name] = len(sets)
         if ctx.seed:
             import random
